@@ -81,10 +81,12 @@ func (st *lsmState) modelRead(key string, ts uint64) readObs {
 	return readObs{Val: best.Val, Ver: best.Ts}
 }
 
+var lsmBigSize = 200
+
 func lsmValue(k string, ts uint64, big bool) string {
 	n := 24
 	if big {
-		n = 200
+		n = lsmBigSize
 	}
 	return string(val(fmt.Sprintf("%s@%d", k, ts), n))
 }
@@ -116,11 +118,13 @@ func lsmOpen(x *seqExec) {
 	st := &lsmState{nextTs: 1, created: map[uint64]int64{}}
 	st.opts = lsmOpts(x)
 	st.oracle = x.j.Str("oracle", "c12")
+	lsmBigSize = x.j.Int("big_size", 200)
 	st.normal = !st.opts.managedTxns
 	nk := x.j.Int("keys", 2)
-	st.keys = []string{"a", "b", "c", "d"}[:nk]
 	if x.j.Str("keyset", "") == "drop" {
-		st.keys = []string{"p1a", "p1b", "p2a", "q"}[:nk]
+		st.keys = []string{"p1a", "p1b", "p2a", "q", "p2b", "qq"}[:nk]
+	} else {
+		st.keys = []string{"a", "b", "c", "d"}[:nk]
 	}
 	x.st = st
 	x.db = mustOpen(st.opts)
@@ -326,7 +330,7 @@ func lsmEnabled(x *seqExec) []string {
 	}
 	if x.j.Bool("drops", false) && len(st.snaps) == 0 && len(st.held) == 0 {
 		// Y<prefix,...> = DropPrefix, V = DropAll (documented: not while reads are in progress)
-		ops = append(ops, "Yp1", "Yp", "Yp1,q", "Yp1,p2", "Yp1a,p1", "Yzz", "V")
+		ops = append(ops, "Yp1", "Yp", "Yp1,q", "Yp1,p2", "Yp1a,p1", "Yp1a,qq", "Yzz", "V")
 	}
 	if only := x.j.Str("ops", ""); only != "" {
 		allow := map[string]bool{}
